@@ -4,7 +4,7 @@ Flask JSON-RPC extension.
 
 import functools as ft
 import json
-from typing import Any, Callable, Dict, Iterable, Optional, Tuple, Union
+from typing import Any, Callable, Dict, Iterable, Optional, Tuple, Type, Union
 
 import flask
 from flask import current_app
@@ -14,6 +14,29 @@ import pjrpc.server
 from pjrpc.server import specs, utils
 
 FlaskDispatcher = pjrpc.server.Dispatcher[None]
+
+
+def _json_dumps(obj: Any, cls: Optional[Type[json.JSONEncoder]] = None, **kwargs: Any) -> str:
+    """
+    Serializes an object using the flask json provider. The provider installs a ``default`` function of its own
+    that would shadow the ``default`` method of the ``cls`` encoder, so the encoder is consulted first.
+    """
+
+    if cls is None:
+        return flask.json.dumps(obj, **kwargs)
+
+    encoder = cls()
+    provider_default = getattr(current_app.json, 'default', None) if current_app else None
+
+    def default(o: Any) -> Any:
+        try:
+            return encoder.default(o)
+        except TypeError:
+            if provider_default is None:
+                raise
+            return provider_default(o)
+
+    return flask.json.dumps(obj, default=default, **kwargs)
 
 
 class JsonRPC:
@@ -38,7 +61,7 @@ class JsonRPC:
         self._status_by_error = status_by_error
 
         kwargs.setdefault('json_loader', flask.json.loads)
-        kwargs.setdefault('json_dumper', flask.json.dumps)
+        kwargs.setdefault('json_dumper', _json_dumps)
 
         self._dispatcher = FlaskDispatcher(**kwargs)
         self._endpoints: Dict[str, FlaskDispatcher] = {'': self._dispatcher}
